@@ -22,7 +22,7 @@ EXT = {
     "C10": " Also: per-key error capture twins (failure isolation), two multiplexed dictionaries with differing key sets, nested calls inside the mapped function, maps nested in map instances over a shared dictionary. Round 6: the mapped dictionary reaches map_ through a re-pointed reference (selection between two dictionaries with the same keys): the surviving instances are re-bound, see the new element's value as a tick and keep their state; pass_through arguments produced by a chain of copy nodes; maps with an EXPLICIT key set (__keys__): instances live with their key in the set, keys mapped before their element exists, dictionary keys that are never mapped; F33 witness (key set of a map output).",
     "C11": " Also: trees with 65-140 live elements, dictionary-valued reductions with a key-wise merge combiner. Round 4: ordered (non-associative) reductions: left fold in key order from the zero over contiguous keys, with an order-sensitive combiner. Round 5: a live, re-pointed zero (followed while the collection is empty / holds one element). Round 6: the reduced dictionary is a map_ output whose elements are references re-pointed by a broadcast flag while the element is silent (operator, node and sub-graph combiners, with / without zero).",
     "C12": " Also: several unmatched keys with a default branch, nested calls inside branches, twin switches differing only in reload-on-tick. Round 4: switch over one structured argument assembled from two ports (branch returns the parameter / a re-assembly / nodes on its elements); selections on held values. Round 6: branches that return their parameter; branches whose result is a SET (the switch owns a collection-valued output): every instantiation - also the same spec again under reload-on-tick or default-to-default - starts from the empty set, deltas cohere with the previous reading.",
-    "C13": " Also: set / dictionary targets with retarget deltas (also when the old target writes in the retarget cycle), selections between sibling elements of one list output. Round 4: key-set (keys_) and dictionary readers inline, nested and nested twice below a re-pointed dictionary reference. Round 5: references handed through a nested pass-through, judged at the retarget cycles. Round 6: stdlib if_cmp (three-way selection) in the random programs; tsd[key] (getitem_) with a ticking key as the source of the reference (re-point, absent key, re-bind; readers inline and nested); a non-de-duplicating producer (republish) between the reference and its readers - an unchanged reference applied again never ticks.",
+    "C13": " Also: set / dictionary targets with retarget deltas (also when the old target writes in the retarget cycle), selections between sibling elements of one list output. Round 4: key-set (keys_) and dictionary readers inline, nested and nested twice below a re-pointed dictionary reference. Round 5: references handed through a nested pass-through, judged at the retarget cycles. Round 6: stdlib if_cmp (three-way selection) in the random programs; tsd[key] (getitem_) with a ticking key as the source of the reference (re-point, absent key, re-bind; readers inline and nested); a non-de-duplicating producer (republish) between the reference and its readers - an unchanged reference applied again never ticks; stdlib if_ (a stream routed to one of two reference-shaped outputs, the other one empty; re-ticks of the condition re-publish without de-duplication).",
     "C14": " Also: map / switch / reduce children created and retired mid-run, add-only key histories with k-th stop faults, reductions with a zero ending on one key, switch branches ending in nested graphs. Round 4: constructed shutdown-sweep cases (map / reduction / ordered reduction with several live children, k-th stop failing; ordered chains that shrink right after a new maximum). Round 5: real-time graphs stopped with values still queued: start order and reverse stop order (lifecycle observer). Round 6: mesh_ instances alive at shutdown with holes in the slot table, fault-free and with stop faults (F30 fixed, F31 known).",
     "C15": " Also: keyed-map per-key capture (errors under the failing key only, key set of the error output), captured timer nodes checked against the abandoned-evaluation reference model. Round 4: try_except around a sub-graph whose failing node sits inside a keyed map child (message, time, once). Round 6: a capturing node whose ORDINARY output has the error schema too; the same consumer definition on both ports stays two nodes, the error reader ticks exactly in the throwing cycles.",
     "C16": " Also: conflating dictionary sources with no-effect deltas, graphs with several push sources, a ThreadSanitizer pass over the scenarios (thorough / VERIF_TSAN=1), bounded stop-to-return latency. Round 4: every source of a multi-source graph has its own capacity; the conflating drain criterion is the last accepted value. Round 5: start / stop order of the nodes of the push scenarios. Round 6 (false alarm removed): refusals after the last cycle of a run that reached its end time on its own are the engine's shutdown.",
